@@ -56,6 +56,8 @@ class symint(metaclass=_SymTypeMeta):  # noqa: N801
             c = symx.const_value(x.e)
             if c is not None:
                 return builtins.int(c)
+            if getattr(x, "decade", None) is not None:
+                return x.__int__()
             if symx.in_message_context():
                 return 0
             raise symx.Inconclusive("concretisation", "int() of a symbolic value at %s" % symx._where())
